@@ -19,7 +19,9 @@ let cmp16 (a : n) (b : n) : z =
 let w64 = n_of_string "0xffffffffffffffff"
 let mask64 v = N.coq_land v w64
 let cp1000 v = mask64 (N.add v (n_of_int 1000))
-let red a b = mask64 (N.add (N.mul a (n_of_int 31)) b)
+(* the fold function; for CC_ArraySized (header esz=k) results are k-byte numbers *)
+let red_mask = ref w64
+let red a b = N.coq_land (N.add (N.mul a (n_of_int 31)) b) !red_mask
 let sorter (l : n list) = List.sort (fun a b -> if N.ltb a b then -1 else if N.ltb b a then 1 else 0) l
 
 (* ---------- ideal world ---------- *)
@@ -85,25 +87,35 @@ let refused_during (before : alloc_st) : bool =
   let granted = int_of_n (N.sub !al.next_id before.next_id) and made = int_of_n (N.sub !al.nreq before.nreq) in
   made > granted
 
+(* a buffer that cannot grow: the grown capacity is not larger (D11, the library then asks for CC_MAX_ELEMENTS
+   slots) or its size in bytes is not representable; no allocator can provide it, and since the byte-size
+   repair the library does not even ask.  The ideal accepts ERR_ALLOC there exactly as for a refused request. *)
+let max8 = N.div w64 (n_of_int 8)
+let cant_grow (a : arr) : bool =
+  N.eqb (a_size a) a.a_cap &&
+  (let p = N.div (N.mul a.a_cap a.a_num) a.a_den in N.leb p a.a_cap || N.ltb max8 p)
+
 let header (tok : string list) =
   reset ();
   let cfg = List.map kv (List.tl (List.tl (List.tl tok))) in
   let get k d = try List.assoc k cfg with Not_found -> d in
   let dflt = List.mem_assoc "default" cfg in
   let cap = if dflt then n_of_int 8 else n_of_string (get "cap" "8") in
-  let (num, den) = if dflt then (2, 1) else Scanf.sscanf (get "ef" "2/1") "%d/%d" (fun x y -> (x, y)) in
+  red_mask := (match int_of_string (get "esz" "8") with 8 -> w64 | k -> n_of_string ("0x" ^ String.make (2 * k) 'f'));
+  let (num, den) = if dflt then (n_of_int 2, n_of_int 1) else
+    (match String.split_on_char '/' (get "ef" "2/1") with [x; y] -> (n_of_string x, n_of_string y) | _ -> failwith "bad ef") in
   let tg = if get "mem" "libc" = "conf" && not dflt then Conf else Libc in
   let tg = if dflt then Libc else tg in
   al := alloc_init (plan_of_string (get "plan" "")) limit;
   let before = !al in
   if get "kind" "array" = "stack" then begin
-    let ((s, r), a') = ok (stack_new tg cap (n_of_int num) (n_of_int den) !al) in
+    let ((s, r), a') = ok (stack_new tg cap num den !al) in
     al := a'; ms.(0) <- r;
     let ist = if s = CC_ERR_INVALID_CAPACITY then "ERR_INVALID_CAPACITY" else if refused_during before then "ERR_ALLOC" else "OK" in
     if ist = "OK" then is_.(0) <- Some [];
     emit "new" (stat_name s) "" ist ""
   end else begin
-    let ((s, r), a') = arr_new tg cap (n_of_int num) (n_of_int den) !al in
+    let ((s, r), a') = arr_new tg cap num den !al in
     al := a'; mh.(0) <- r;
     let ist = if s = CC_ERR_INVALID_CAPACITY then "ERR_INVALID_CAPACITY" else if refused_during before then "ERR_ALLOC" else "OK" in
     if ist = "OK" then ih.(0) <- Some [];
@@ -125,12 +137,12 @@ let array_op h (op : string) (args : string list) =
     (match op with
      | "add" ->
          let x = a1 () in let s = alloc_op (arr_add a x !al) in
-         let ist = if refused_during before then stat_name s else "OK" in
+         let ist = if refused_during before || cant_grow a then stat_name s else "OK" in
          if ist = "OK" then ih.(h) <- Some (l @ [x]);
          emit op (stat_name s) "" ist ""
      | "add_at" ->
          let x = a1 () and i = a2 () in let s = alloc_op (arr_add_at a x i !al) in
-         let ist = if not (small i && int_of_n i <= len) then "ERR_OUT_OF_RANGE" else if refused_during before then stat_name s else "OK" in
+         let ist = if not (small i && int_of_n i <= len) then "ERR_OUT_OF_RANGE" else if refused_during before || cant_grow a then stat_name s else "OK" in
          if ist = "OK" then ih.(h) <- Some (insert_at l (int_of_n i) x);
          emit op (stat_name s) "" ist ""
      | "replace_at" ->
@@ -209,7 +221,7 @@ let stack_op h (op : string) (args : string list) =
      | "push" ->
          let x = n_of_string (List.nth args 0) in
          let ((st, s'), al') = ok (stack_push s x !al) in al := al'; ms.(h) <- Some s';
-         let ist = if refused_during before then stat_name st else "OK" in
+         let ist = if refused_during before || cant_grow s.s_arr then stat_name st else "OK" in
          if ist = "OK" then is_.(h) <- Some (l @ [x]);
          emit op (stat_name st) "" ist ""
      | "pop" ->
@@ -324,7 +336,7 @@ let run (lines : string list) =
               | "add" ->
                   let x = n_of_string (List.nth args 0) in
                   let (((s, a'), it'), al') = ok (it_add a it x !al) in al := al'; mh.(h) <- Some a'; mit.(k) <- Some (h, it');
-                  if refused_during before then emit op (stat_name s) "" (stat_name s) ""
+                  if refused_during before || cant_grow a then emit op (stat_name s) "" (stat_name s) ""
                   else (ih.(h) <- Some (insert_at l iti.pos x); iti.pos <- iti.pos + 1; emit op (stat_name s) "" "OK" "")
               | "replace" ->
                   let x = n_of_string (List.nth args 0) in
@@ -382,7 +394,7 @@ let run (lines : string list) =
               | "add" when not on_stack ->
                   let x = n_of_string (List.nth args 0) and y = n_of_string (List.nth args 1) in
                   let (((((s, b1), b2), it'), al')) = ok (zip_add a1 a2 it x y !al) in al := al'; seta h1 b1; seta h2 b2; setit it';
-                  if refused_during before then emit op (stat_name s) "" (stat_name s) ""
+                  if refused_during before || cant_grow a1 || cant_grow a2 then emit op (stat_name s) "" (stat_name s) ""
                   else if iti.pos <= List.length l1 && iti.pos <= List.length l2 then begin
                     tbl.(h1) <- Some (insert_at l1 iti.pos x); tbl.(h2) <- Some (insert_at l2 iti.pos y); iti.pos <- iti.pos + 1;
                     emit op (stat_name s) "" "OK" "" end
